@@ -742,8 +742,12 @@ def native_validation(R):
         T = 1_700_000_000
         src = {"a": ("one", T), "d/b": ("two", T + 5), "same": ("same", T + 9), "d/grown.txt": ("the new, longer content", T - 7)}
         dst = {"a": ("ONE", T), "same": ("same", T + 9), "stale": ("old", T), "d/grown.txt": ("old", T - 7)}
+        odd = ["we ird's name", "back\\slash", "tab\there", "nl\nhere", "$HOME", "a;b", 'q"uote', "sub dir/x y", "star*", "-dash", "per%cent", "uni\u00e9"]
+        oddsrc = {n: ("content of %d" % i, T + i) for i, n in enumerate(odd)}
         remote = [{"pull": True, "src": src, "dst": dst, "delete": True}, {"push": True, "src": src, "dst": dst, "delete": True},
-                  {"push": True, "src": src, "dst": dst, "delete": False, "dry": True}]
+                  {"push": True, "src": src, "dst": dst, "delete": False, "dry": True},
+                  # names the remote shell could misread: quotes, backslash, tab, newline, `$`, `;`, `*`, leading dash, `%`, non-ASCII
+                  {"pull": True, "src": oddsrc, "dst": {"old": ("o", T)}, "delete": True}, {"push": True, "src": oddsrc, "dst": {"old": ("o", T)}, "delete": True}]
         for prof in ("dev",):
             for c in remote:
                 try:
